@@ -141,7 +141,7 @@ fn judge_c14(w: &mut World, c: &Circuit, sat: Option<bool>, sites: &[(Fq, bool, 
     }
     let hk = hints_key(c, sites);
     let rels = std::mem::take(&mut w.rels);
-    for rel in &rels {
+    for rel in rels.iter() {
         w.out.steps += 1;
         match rel {
             Rel::Decode { s, out, via, site_from } => {
@@ -345,4 +345,5 @@ fn judge_c14(w: &mut World, c: &Circuit, sat: Option<bool>, sites: &[(Fq, bool, 
             }
         }
     }
+    w.rels = rels;
 }
